@@ -18,9 +18,15 @@ use vrp_pragmatic::format::problem::{PragmaticProblem, create_approx_matrices, d
 use vrp_pragmatic::format::{CoordIndexExtraProperty, Location as ApiLocation};
 use vrp_verif_harness::*;
 
-/// S28 switch: `false` while `fleet_reader::create_transport_costs` maps an unknown matrix profile name by its list
-/// position (the unknown-name stream is then out of the hypotheses); set to `true` once the fix is committed.
-const S28_FIXED: bool = false;
+/// S28 switch — which `fleet_reader::create_transport_costs` is in /repo:
+/// 0 = as it stands (a matrix whose name is not a fleet profile is mapped by its list position),
+/// 1 = after `fixes/S28.patch` (every such name is an error),
+/// 2 = after `fixes/S28-alt.patch` (fleet profile names mixed with other names are an error; a set in which *no* name is
+///     a fleet profile is still mapped by position — upstream's unit tests pin that).
+/// Streams: dev "S28" = known and unknown names mixed, dev "S28u" = no name known. A stream is inside the hypotheses
+/// (oracle `unknown_name_rejected` applies) once the variant rejects it. Keep in step with `readerMode` in VrpModel/C16.lean
+/// and with the `in_hyp` flags of corpus/C16/S28.jsonl.
+const S28_MODE: u8 = 0;
 
 thread_local! {
     static INEXACT: Cell<bool> = const { Cell::new(false) };
@@ -888,6 +894,9 @@ fn gen_prag(rng: &mut Rng) -> Value {
     } else {
         queries(rng, n, &vps, &info, 5)
     };
+    if dev == "S28" && !ms.iter().any(|m| profiles.iter().any(|p| m["name"] == *p)) {
+        dev = json!("S28u");
+    }
     let mut case = json!({"k": "prag", "profiles": profiles, "vs": vs, "locs": locs, "ms": ms, "qs": qs});
     if !broken && rng.chance(1, 4) {
         case["unk"] = json!(true);
@@ -898,7 +907,8 @@ fn gen_prag(rng: &mut Rng) -> Value {
     }
     if !dev.is_null() {
         case["dev"] = dev.clone();
-        if dev != "S28" || !S28_FIXED {
+        let fixed = (dev == "S28" && S28_MODE >= 1) || (dev == "S28u" && S28_MODE == 1);
+        if !fixed {
             case["in_hyp"] = json!(false);
         }
     }
